@@ -1298,6 +1298,7 @@ int QSexact_verify (
 )
 {
    int rval = 0;
+   QSbasis *dbl_basis = 0;	/* basis obtained from the double precision problem in the prestep, owned here */
 
    //assert(basis);
    //assert(basis->nstruct);
@@ -1342,7 +1343,7 @@ int QSexact_verify (
             y_mpq = QScopy_array_dbl_mpq(y_dbl);
             
             /* test optimality of constructed solution */
-            basis = dbl_QSget_basis(p_dbl);
+            basis = dbl_basis = dbl_QSget_basis(p_dbl);
             rval = QSexact_optimal_test(p_mpq, x_mpq, y_mpq, basis);
             if( rval )
             {
@@ -1393,7 +1394,7 @@ int QSexact_verify (
             mpq_EGlpNumSet(y_mpq[i], dbl_d_sol[i]);
             
          /* test optimality of constructed solution */
-         basis = dbl_QSget_basis(p_dbl);
+         basis = dbl_basis = dbl_QSget_basis(p_dbl);
          rval = QSexact_optimal_test(p_mpq, x_mpq, y_mpq, basis);
          if( rval )
          {
@@ -1430,6 +1431,9 @@ int QSexact_verify (
             *result ? mpq_get_d(*dobjval) : mpq_get_d(*dobjval));
       }
    }
+
+   if( dbl_basis )
+      dbl_QSfree_basis(dbl_basis);
 
    return rval;
 }
